@@ -21,7 +21,7 @@ MANIFEST = {
 }
 
 BOUNDS = {"quick": {"vertices": 3, "links": 2}, "thorough": {"vertices": 3, "links": 3}}
-TIME_BUDGET = {"quick": 300, "thorough": 2400}
+TIME_BUDGET = {"quick": 300, "thorough": 1200}
 STUBS = ["pyvis.network.Network -> model class harness/pyvis_stub.py (validated against the real class per path)",
          "rvfunc / refunc -> uninterpreted functions Vertex/Link -> String", "hex(id(v)) -> distinct opaque text per object"]
 ASSUMPTIONS = ["rvfunc labels are non-empty strings", "links are two-ended; ends are vertices or None"]
